@@ -701,7 +701,9 @@ class Interp:
         elif t is ast.For:
             it = self.eval(st.iter, env, func, depth)
             broke = False
-            for v in self.iterate(it):
+            # a loop over an iterator object consumes it one item at a time: after a `break` the rest is still there for whoever
+            # holds the same iterator (a second loop, next(), chain(...))
+            for v in (it.lazy() if isinstance(it, _Gen) else self.iterate(it)):
                 self.assign(st.target, v, env, func, depth)
                 try:
                     self.exec_block(st.body, env, func, depth)
@@ -1990,6 +1992,10 @@ class _Gen:
     def take(self):
         out, self.items = self.items, []
         return out
+
+    def lazy(self):
+        while self.items:
+            yield self.items.pop(0)
 
     def __iter__(self):
         return iter(self.take())
